@@ -1,10 +1,12 @@
 package sod
 
 import (
+	"bytes"
 	"encoding/json"
 	"errors"
 	"fmt"
 	"regexp"
+	"strconv"
 	"time"
 )
 
@@ -26,12 +28,19 @@ func (f *indexedField) MarshalJSON() ([]byte, error) {
 
 func (f *indexedField) UnmarshalJSON(data []byte) error {
 	var tuple []interface{}
-	if err := json.Unmarshal(data, &tuple); err != nil {
+	// numbers are kept as json.Number: going through float64 would lose
+	// precision for integers above 2^53 (any UnixNano timestamp)
+	dec := json.NewDecoder(bytes.NewReader(data))
+	dec.UseNumber()
+	if err := dec.Decode(&tuple); err != nil {
 		return err
 	}
 	f.Value = tuple[0]
-	// Json unmarshals integer to interface{} as float64
-	f.ObjectId = uint64(tuple[1].(float64))
+	id, err := strconv.ParseUint(tuple[1].(json.Number).String(), 10, 64)
+	if err != nil {
+		return err
+	}
+	f.ObjectId = id
 	return nil
 }
 
@@ -76,18 +85,22 @@ func newIndexedField(value interface{}, objid uint64) (*indexedField, error) {
 }
 
 func (f *indexedField) valueTypeFromString(t string) {
-	// we cast everything to float64 because json unmarshal interface{}
-	// to float64 and that is a current limitation of the indexing
+	// numbers come out of UnmarshalJSON as json.Number and are parsed
+	// according to the type the field index casts to, without loss
+	var err error
 	switch t {
 	case "float64":
-		f.Value = f.Value.(float64)
+		f.Value, err = f.Value.(json.Number).Float64()
 	case "int64":
-		f.Value = int64(f.Value.(float64))
+		f.Value, err = strconv.ParseInt(f.Value.(json.Number).String(), 10, 64)
 	case "uint64":
-		f.Value = uint64(f.Value.(float64))
+		f.Value, err = strconv.ParseUint(f.Value.(json.Number).String(), 10, 64)
 	case "string":
 	default:
 		panic(fmt.Errorf("%w %s", ErrUnknownKeyType, t))
+	}
+	if err != nil {
+		panic(err)
 	}
 }
 
